@@ -20,14 +20,25 @@ def oracle(ctx, stores):
         k = o.split(" ")[0]
         hist[k] = hist.get(k, 0) + 1
         if k in ("CHANGED", "DIAGS-CHANGED", "ERROR", "PANIC"):
-            bad.append(dict(files=f, base=b, kind=tag, extra_passes=s, why="re-running passes %r after the pipeline: %s" % (s, o[:400])))
+            bad.append(dict(files=f, base=b, kind=tag, extra_passes=s, why="re-running passes %r after the pipeline: %s" % (s, o[:1500])))
     ctx.coverage["rerun_outcomes"] = hist
     return bad
 
 
+def known(f):
+    """the recorded finding: an extra value-analysis run learns that an ecall is an exit (a7 = 10 or 93)"""
+    import re
+    m = re.search(r"pass=a node=\[(\d+) N\(basic ecall.*? ri\[([^\]]*)\]", f["why"])
+    if m and re.search(r"(^|;)17=c:(10|93)(;|$)", m.group(2)):
+        old = re.search(r"was=\[\d+ N\(basic ecall.*? ri\[([^\]]*)\]", f["why"])
+        if old and not re.search(r"(^|;)17=c:(10|93)(;|$)", old.group(1)):
+            return "rerun:avail-learns-exit-ecall: a further value-analysis run turns an ecall into a known exit after the last termination step cut an edge"
+    return None
+
+
 def run(ctx):
     generic.run(ctx, "C12", ["avail1", "term1", "avail2", "term2", "live"],
-                dict(conforming=40, flow=100, random=60, injected=30), oracle=oracle, what="dataflow passes")
+                dict(conforming=40, flow=100, random=60, injected=30, stack=40), oracle=oracle, known=known, what="dataflow passes")
 
 
 replay = generic.replay
